@@ -56,7 +56,7 @@ func (p *prop) Run(line string) core.Outcome {
 	}
 	f := strings.Split(line, " ")
 	switch f[0] {
-	case "adapt", "madapt", "perm", "eqv", "leak", "site", "hist", "argidx", "bind", "rename", "sopts", "lnp":
+	case "adapt", "madapt", "perm", "eqv", "leak", "site", "hist", "argidx", "bind", "rename", "sopts", "lnp", "hp":
 		// cases that run the adapter can die of a fatal (unrecoverable) Go error
 		switch noteCase(line) {
 		case "crash":
@@ -96,6 +96,14 @@ func (p *prop) Run(line string) core.Outcome {
 	case "addr":
 		if len(f) == 2 {
 			return runAddr(line, f[1])
+		}
+	case "norm":
+		if len(f) == 2 {
+			return runNorm(line, f[1])
+		}
+	case "hp":
+		if len(f) == 2 {
+			return runHp(line, f[1])
 		}
 	case "lnp":
 		if len(f) == 3 {
